@@ -8,6 +8,7 @@ import (
 	"sort"
 	"strings"
 	"testing"
+	"time"
 
 	"github.com/fullstorydev/emulators/bigtable/bttest"
 	"pgregory.net/rapid"
@@ -23,6 +24,9 @@ type C08Step struct {
 	// Crash: "" none | "after" = kill right after the response | a named crash point inside the request
 	Crash string `json:"crash,omitempty"`
 	Hit   int    `json:"hit,omitempty"` // which occurrence of the point (1-based)
+	// Racer: a second request issued while Op is parked at the point Crash (first hit); Op goes on as soon as the
+	// racer has been acknowledged or is blocked. The process is then killed right after both responses.
+	Racer *bt.Op `json:"racer,omitempty"`
 }
 
 type C08Case struct {
@@ -57,6 +61,17 @@ func genC08() *rapid.Generator[C08Case] {
 						s.Crash, s.Hit = rapid.SampledFrom([]string{"leveldb.Clear.closed", "disk.newDb.nuked", "leveldb.Clear.reopened"}).Draw(t, "p3"), 1
 					}
 				}
+			}
+			// a tenth of the requests that rewrite the table metadata are parked there while a second admin request on the
+			// same table is issued: both are acknowledged, then the process dies
+			if (s.Op.K == "ModifyCF" || s.Op.K == "CreateTable") && rapid.IntRange(0, 9).Draw(t, "race") == 0 {
+				r := bt.GenOp(ctx).Draw(t, "racer")
+				if r.K != "CreateTable" && r.K != "ModifyCF" && r.K != "DropRowRange" {
+					r = bt.Op{K: "DeleteTable"} // half of the racers: the table is deleted under the parked request
+				}
+				r.Table, r.Parent = s.Op.Table, s.Op.Parent
+				s.Racer = &r
+				s.Crash, s.Hit = rapid.SampledFrom([]string{"disk.SetTableMeta.start", "disk.SetTableMeta.tmpWritten", "disk.SetTableMeta.renamed"}).Draw(t, "rp"), 1
 			}
 			return s
 		})
@@ -174,7 +189,17 @@ func runC08(c C08Case, ev *vt.Ev) *vt.Failure {
 		op := &st.Op
 		var image string
 		var snapErr error
-		if st.Crash != "" && st.Crash != "after" {
+		var racerRes *racing
+		if st.Racer != nil {
+			fired := false
+			bttest.VerifYield = func(p string) {
+				if p != st.Crash || fired {
+					return
+				}
+				fired = true
+				racerRes = raceAt(s, st.Racer)
+			}
+		} else if st.Crash != "" && st.Crash != "after" {
 			hits := 0
 			bttest.VerifYield = func(p string) {
 				if p == st.Crash && image == "" && snapErr == nil {
@@ -191,7 +216,49 @@ func runC08(c C08Case, ev *vt.Ev) *vt.Failure {
 		if snapErr != nil {
 			panic("HARNESS: snapshot: " + snapErr.Error())
 		}
-		mis := m.Step(op, res)
+		if st.Racer != nil {
+			if racerRes == nil { // the request never reached the point (refused up front): nothing raced
+				st.Racer = nil
+				st.Crash = ""
+			} else {
+				if rr := racerRes.wait(); rr == nil || strings.HasPrefix(rr.Panic, "HANG") {
+					return fail("C08", i, st.Racer, "a request issued while another one was rewriting the table metadata was never answered")
+				}
+			}
+		}
+		var mis string
+		if st.Racer != nil {
+			// two acknowledged concurrent requests: the model follows whichever serial order explains both responses;
+			// judging the pair itself is the business of C06/C14, here only the recovery of what was acknowledged is
+			rr := racerRes.wait()
+			ab, ba := m.Clone(), m.Clone()
+			m1 := ab.Step(op, res)
+			if m1 == "" {
+				m1 = ab.Step(st.Racer, rr)
+			}
+			m2 := ba.Step(st.Racer, rr)
+			if m2 == "" {
+				m2 = ba.Step(op, res)
+			}
+			switch {
+			case m1 == "":
+				m = ab
+			case m2 == "":
+				m = ba
+			default:
+				ev.Case(c, false, "concurrent-pair-without-serial-explanation(abandoned)")
+				return nil
+			}
+			labels["second-request-while-metadata-rewrite-parked:"+st.Racer.K] = true
+			if rr.Code == 0 && res.Code == 0 {
+				labels["both-concurrent-requests-acknowledged"] = true
+			}
+			st2 := *st
+			st2.Crash = "after"
+			st = &st2
+		} else {
+			mis = m.Step(op, res)
+		}
 		if strings.Contains(mis, "UNSPEC:") {
 			resyncRow(s, m, op)
 			mis = ""
@@ -272,9 +339,49 @@ func runC08(c C08Case, ev *vt.Ev) *vt.Failure {
 	return nil
 }
 
+// racing: a request running beside one that is parked at a yield point
+type racing struct {
+	done chan struct{}
+	res  *bt.Result
+}
+
+func (r *racing) wait() *bt.Result {
+	vt.Await(r.done, 120*time.Second, nil, "request issued beside a parked one") // s.Exec detects hangs itself
+	return r.res
+}
+
+// raceAt issues op and returns once it has been answered or sits in a blocking wait (20 samples, 1 ms apart). A wrong
+// guess only makes the interleaving less interesting: the oracle holds for every interleaving.
+func raceAt(s *bt.Srv, op *bt.Op) *racing {
+	r := &racing{done: make(chan struct{})}
+	gid := make(chan int64, 1)
+	inline := *s
+	inline.Inline = true
+	go func() {
+		gid <- vt.Goid()
+		r.res = inline.Exec(op)
+		close(r.done)
+	}()
+	id := <-gid
+	blocked := 0
+	for i := 0; i < 5000 && blocked < 20; i++ {
+		select {
+		case <-r.done:
+			return r
+		case <-time.After(time.Millisecond):
+		}
+		if st := vt.GoroutineState(id); st == "semacquire" || strings.HasPrefix(st, "sync.") {
+			blocked++
+		} else {
+			blocked = 0
+		}
+	}
+	return r
+}
+
 func TestC08(t *testing.T) {
 	vt.Prop[C08Case]{ID: "C08", Test: "TestC08",
-		Rule: "fault enumeration in-process: rapid-generated admin+data programs (5-40 requests over <=3 tables in <=2 parents: CreateTable with GC rules, ModifyColumnFamilies create/update/drop, DeleteTable, re-create, MutateRow(s), ReadModifyWrite, CheckAndMutate, DropRowRange prefix/all) on the disk engine with a crash decision per request: kill right after the response, or at the 1st/2nd hit of a guarded crash point inside the request (SetTableMeta start / temp file written / renamed, Create after the metadata write, Clear after close / after reopen, directory removed); a crash = stable point-in-time copy of the storage root on which a NEW server is started (repeated cycles); oracle = registry/data model of acknowledged requests, an in-flight request must be wholly present or wholly absent; non-trivial = a restart after >=1 admin change and >=3 data writes",
+		Rule: "fault enumeration in-process: rapid-generated admin+data programs (5-40 requests over <=3 tables in <=2 parents: CreateTable with GC rules, ModifyColumnFamilies create/update/drop, DeleteTable, re-create, MutateRow(s), ReadModifyWrite, CheckAndMutate, DropRowRange prefix/all) on the disk engine with a crash decision per request: kill right after the response, or at the 1st/2nd hit of a guarded crash point inside the request (SetTableMeta start / temp file written / renamed, Create after the metadata write, Clear after close / after reopen, directory removed); a crash = stable point-in-time copy of the storage root on which a NEW server is started (repeated cycles); a tenth of the metadata-rewriting requests are instead parked at one of the SetTableMeta points while a second request on the same table (DeleteTable, ModifyColumnFamilies, DropRowRange or CreateTable) runs until it is answered or blocked, then both finish and the process is killed; oracle = registry/data model of acknowledged requests (for a concurrent pair: the serial order that explains both responses), an in-flight request must be wholly present or wholly absent; non-trivial = a restart after >=1 admin change and >=3 data writes",
 		Gen:  genC08(), Run: runC08}.Main(t)
 }
 
